@@ -22,12 +22,18 @@ type vxValCase struct {
 	Type    *cqlspec.Type  `json:"type"`
 	Value   cqlspec.Value  `json:"value"`
 	Choices []int          `json:"choices"`
+	Dirty   *cqlspec.Value `json:"dirty,omitempty"` // another value of the same type, decoded into every destination first (a destination that was used before)
 }
 
 func vxDrawValCase(t *rapid.T) *vxValCase {
 	proto := rapid.IntRange(1, 5).Draw(t, "proto")
 	ty := vxDrawType(t, rapid.IntRange(0, 3).Draw(t, "depth"), false)
-	return &vxValCase{Proto: proto, Type: ty, Value: vxDrawValue(t, ty, true, proto), Choices: vxDrawChoices(t, 40)}
+	c := &vxValCase{Proto: proto, Type: ty, Value: vxDrawValue(t, ty, true, proto), Choices: vxDrawChoices(t, 40)}
+	if rapid.IntRange(0, 2).Draw(t, "dirty") == 0 {
+		d := vxDrawValue(t, ty, true, proto)
+		c.Dirty = &d
+	}
+	return c
 }
 
 func vxValid(ty *cqlspec.Type, v cqlspec.Value) bool {
@@ -346,6 +352,14 @@ func TestVxC02RoundTrip(t *testing.T) {
 
 func vxDecodeInto(info TypeInfo, c *vxValCase, b []byte, holder reflect.Type, k *vstats.Case, ch *vxCh, tag string) error {
 	p := reflect.New(holder)
+	if c.Dirty != nil && vxValid(c.Type, *c.Dirty) && cqlspec.Encodable(c.Type, *c.Dirty, c.Proto) {
+		// the destination has been used before (the usual `for iter.Scan(&x)` loop): whatever it holds,
+		// the value read now must be the one in the bytes
+		if _, pan := vxSafeUnmarshal(info, cqlspec.Encode(c.Type, *c.Dirty, c.Proto), p.Interface()); pan != nil {
+			return fmt.Errorf("%s: Unmarshal(%v, *%v) of the earlier value panicked: %v", tag, c.Type, holder, pan)
+		}
+		tag += "(used destination)"
+	}
 	err, pan := vxSafeUnmarshal(info, b, p.Interface())
 	if pan != nil {
 		return fmt.Errorf("%s: Unmarshal(%v, %x, *%v) panicked: %v", tag, c.Type, b, holder, pan)
